@@ -158,7 +158,14 @@ def main() -> None:
         for ln in sys.stdin:
             ln = ln.strip()
             if ln:
-                sys.stdout.write(base64.b64encode(pickle.dumps(world.build_graph(json.loads(ln)))).decode() + "\n")
+                req = json.loads(ln)
+                if "recipe" in req:
+                    import c11sim
+
+                    obj = c11sim.build(req["recipe"])
+                else:
+                    obj = world.build_graph(req)
+                sys.stdout.write(base64.b64encode(pickle.dumps(obj)).decode() + "\n")
                 sys.stdout.flush()
         return
     with open(args["out"], "w") as out:
